@@ -80,3 +80,19 @@ VARIANTS = [
       "                    j += 1\n                    i = 1 + j\n"
       "            return res", "silent"),
 ]
+
+VARIANTS += [
+    V("geo-math-radians", I,
+      "    return (3.141592 * (degrees + (5.0 * (x - degrees)) / 3.0)) "
+      "/ 180.0",
+      "    import math\n    return math.radians(degrees + (5.0 * (x - "
+      "degrees)) / 3.0)", "fire", "D18.1",
+      "seed C18-geo-exact-pi: TSPLIB95 fixes PI = 3.141592; the exact pi "
+      "moves a few truncations"),
+    V("silent-geo-pi-hoisted", I,
+      "    return (3.141592 * (degrees + (5.0 * (x - degrees)) / 3.0)) "
+      "/ 180.0",
+      "    pi_tsplib = 3.141592\n    return ((degrees + (5.0 * (x - degrees"
+      ")) / 3.0) * pi_tsplib) / 180.0", "silent", "",
+      "behaviour-preserving rewrite of the conversion"),
+]
